@@ -48,8 +48,18 @@ def _v(oracle, **kw):
     return d
 
 
+def _foreign():
+    from rv.project import Project
+
+    f = Project()
+    f.new_module(builder.SIMPLE_TYPES[3])
+    f.new_module(builder.SIMPLE_TYPES[9])
+    return f
+
+
 def execute(case):
     s = builder.Session()
+    s.foreign = _foreign()
     violations = []
     probes = {}
     states = []
@@ -108,12 +118,20 @@ def execute(case):
                     violations.append(_v("loaded_mutual_consistency", mode=mode, what=errs[0][0], detail={"op": i, "errs": errs[:4]}))
                 if edges_before:
                     nontrivial = True
+                foreign = s.foreign
                 s = builder.Session(loaded)
+                s.foreign = foreign
             st = seeds.h64(sorted(before.items()))
             states.append(st)
             log.append((i, "save_load", mode, loaded is not None, st))
+        elif k == "save":
+            # an intermediate save without restart (the same object is saved again later)
+            d_ = s.project.read()
+            log.append((i, "save", seeds.digest(d_)))
         else:
             out = s.apply(op)
+            if out.startswith("refused"):
+                probes["refused_foreign_operand"] = probes.get("refused_foreign_operand", 0) + 1
             log.append((i, out))
         _box["s"] = s
         _box["nontrivial"] = nontrivial
@@ -164,12 +182,16 @@ def generate(seed, i, tier="quick"):
         return generate_hub(r)
     ops = [{"k": "mod", "t": r.randrange(1000), "any": False} for _ in range(r.randint(1, 7))]
     slotless_run = r.random() < 0.3
+    fp = r.choice([0.0, 0.0, 0.1, 0.25])
     for _ in range(r.randint(1, 4)):
         for _ in range(r.randint(1, 14)):
-            if r.random() < 0.08:
+            x = r.random()
+            if x < 0.08:
                 ops.append({"k": "mod", "t": r.randrange(1000), "any": False})
+            elif x < 0.16:
+                ops.append({"k": "save"})
             else:
-                ops.append(builder.gen_link_op(r))
+                ops.append(builder.gen_link_op(r, foreign_p=fp))
         ops.append({"k": "save_load", "slotless": slotless_run and r.random() < 0.7})
     return {"property": PROPERTY, "world": "links+restart", "ops": ops}
 
